@@ -112,6 +112,8 @@ func sameLists(a, b []pList) bool {
 	return true
 }
 
+var sigdbKept, sigdbKeptCopy []byte
+
 var noList = pList{Type: "none", Entries: []pEntry{}}
 
 func runSigdb(sc M) {
@@ -122,6 +124,12 @@ func runSigdb(sc M) {
 	snapshot := func(ev M) {
 		// projection of the encoded database + struct fields
 		b := db.Bytes()
+		// the encoding handed out at the previous step is still what it was then
+		if sigdbKept != nil && !bytes.Equal(sigdbKept, sigdbKeptCopy) {
+			ev["fields_agree"] = false
+			ev["stale_encoding_changed"] = true
+		}
+		sigdbKept, sigdbKeptCopy = b, append([]byte{}, b...)
 		lists, malformed := projectESL(b)
 		fields := []pList{}
 		for _, l := range *db {
@@ -129,7 +137,9 @@ func runSigdb(sc M) {
 		}
 		ev["db"] = lists
 		ev["malformed"] = malformed
-		ev["fields_agree"] = sameLists(lists, fields)
+		if ev["stale_encoding_changed"] != true {
+			ev["fields_agree"] = sameLists(lists, fields)
+		}
 		if sl != nil {
 			pl, mal := projectESL(sl.Bytes())
 			if len(pl) == 1 && !mal {
